@@ -51,6 +51,11 @@ fn view(ctx: &mut Ctx, reg: &Region, tr: &mut Tr, what: &str, addr: usize, len: 
 pub fn header(ctx: &mut Ctx, reg: &Region, tr: &mut Tr, opts: &Opts, h: &Multiboot2Header, mem: &[u8]) {
     tl!(tr, " magic {} arch {} length {} checksum {} ok {}", h.header_magic(), h.arch() as u32, h.length(), h.checksum(), h.verify_checksum());
     dbg(ctx, reg, opts, "Multiboot2Header", h);
+    if let Out::Val(Ok(s)) = catch(|| multiboot2_common::DynSizedStructure::<Multiboot2BasicHeader>::ref_from_slice(reg.as_slice())) {
+        dbg(ctx, reg, opts, "Multiboot2BasicHeader", s.header());
+        let b = s.header();
+        tl!(tr, " basic {} {} {} {} {}", b.header_magic(), b.arch() as u32, b.length(), b.checksum(), b.verify_checksum());
+    }
     // walk
     let mut it = h.iter();
     dbg(ctx, reg, opts, "TagIter", &it);
